@@ -259,7 +259,7 @@ impl Monitor for C14 {
          independent reverse-mode sweep over Z/2^64; (b) a structural family with |F(o)|, |R(o)| in 0..2 and residual lists of length 0..2 carrying labels unique per operation, applied to \
          arbitrary small diagrams: exact type lists interleave(FA,RA) -> interleave(FB,RB) and FA●RB -> FB●RA, isomorphism with the model lens substitution (forward image, residual wires \
          identified with the matching reverse image, reverse wires bent) and its re-bent adaptation, monogamy preservation, O(f;g) = O(f);O(g) and O(f|g) = O(f)|O(g) through the API. \
-         non-trivial = circuit with >=1 mul or copy, or a structural/functoriality instance with >=1 hyperedge; distinct = hash of the instance."
+         non-trivial = circuit with >=1 mul or copy, or a structural/functoriality instance with >=1 hyperedge; distinct = hash of the instance. Also: both lax entry points on arguments that still carry pending unifications, and Optic::map_operations called directly on the batch of the argument's operations (tensor of the model lenses)."
     }
     fn corpus_len(&self) -> u64 {
         corpus().len() as u64
